@@ -34,6 +34,8 @@ COMPONENTS = {
             "internal/server, internal/allocation (one manager per listener)", "internal/proto", "pion/stun"],
            ["TURN clients (scripted, sharing their ip:port across listeners)", "peers (scripted)", "relay address generator (simnet-backed, one per listener, distinct relay IPs)",
             "reference model (allocated / relay / permitted IPs per endpoint) instead of the full monitor"]),
+    "tls": (["turn.Server behind crypto/tls (server.go readListener: handshake with a 10 s limit, connection tracking, Close), internal/server Binding path", "crypto/tls (real, both ends)"],
+            ["TLS clients (scripted: real handshake + Binding, or plaintext / hostile / silent)", "relay address generator (simnet-backed)"]),
     "gen": (["RelayAddressGeneratorStatic / PortRange / None (relay_address_generator_*.go)"], ["vnet/transport.Net (SimTransport over simnet)"]),
     "cred": (["lt_cred.go (GenerateLongTermCredentials, GenerateLongTermTURNRESTCredentials, LongTermTURNRESTAuthHandler, NewLongTermAuthHandler)",
               "internal/server authentication path, turn.Client (long-lived handler runs)"], SRV_STUB[:1]),
